@@ -542,21 +542,27 @@ impl Pool for PoolImpl {
         let finalization_event = self
             .finality_tracker
             .add_parent(block_id.clone(), parent_id.clone());
-        let new_parents_ready = self
-            .parent_ready_tracker
-            .handle_finalization(finalization_event);
-        self.send_parent_ready_events(new_parents_ready).await;
+        // the new parent link may decide further slots, discard their state as well
+        self.handle_finalization(finalization_event).await;
+
+        // nothing is tracked for a block in a slot that is already decided
+        if *slot < self.first_unpruned_slot() {
+            return;
+        }
 
         self.slot_state(*slot).notify_parent_known(block_hash);
         if let Some(parent_state) = self.slot_states.get(parent_slot)
             && parent_state.is_notar_fallback_or_stronger(parent_hash)
-            && let Some(output) = self
+        {
+            // the parent is certified already, the block does not have to wait for that
+            if let Some(output) = self
                 .slot_state(*slot)
                 .notify_parent_certified(block_hash.clone())
-        {
-            match output {
-                Either::Left(event) => self.send_votor_event(event).await,
-                Either::Right((slot, hash)) => self.send_repair((slot, hash)).await,
+            {
+                match output {
+                    Either::Left(event) => self.send_votor_event(event).await,
+                    Either::Right((slot, hash)) => self.send_repair((slot, hash)).await,
+                }
             }
             return;
         }
